@@ -1,0 +1,67 @@
+/*
+ * libpathrs: safe path resolution on Linux
+ *
+ * Verification hook. This file is only compiled with `--cfg pathrs_verif`;
+ * without that flag nothing in the library changes.
+ */
+
+//! A `Mutex` with the interface subset used by the C error table that
+//! announces every lock acquisition and every release through an otherwise
+//! unused system-call number. Under the deterministic simulator (which traps
+//! every system call of a caller thread) these are scheduling points, so two
+//! critical sections of one thread can be separated by another thread's; on a
+//! normal kernel the call fails with ENOSYS and is ignored.
+
+use std::{
+    mem::ManuallyDrop,
+    ops::{Deref, DerefMut},
+    sync::{Mutex as StdMutex, MutexGuard as StdMutexGuard},
+};
+
+const HYPERCALL_NR: libc::c_long = 0x5EC0;
+const HC_YIELD: libc::c_long = 4;
+
+fn yield_point(what: libc::c_long) {
+    // SAFETY: an unassigned system-call number with integer arguments only.
+    unsafe { libc::syscall(HYPERCALL_NR, HC_YIELD, what, 0) };
+}
+
+#[derive(Debug)]
+pub(crate) struct Mutex<T>(StdMutex<T>);
+
+pub(crate) struct MutexGuard<'a, T>(ManuallyDrop<StdMutexGuard<'a, T>>);
+
+impl<T> Mutex<T> {
+    pub(crate) fn new(value: T) -> Self {
+        Self(StdMutex::new(value))
+    }
+
+    pub(crate) fn lock(&self) -> Result<MutexGuard<'_, T>, String> {
+        yield_point(1);
+        self.0
+            .lock()
+            .map(|guard| MutexGuard(ManuallyDrop::new(guard)))
+            .map_err(|err| err.to_string())
+    }
+}
+
+impl<T> Deref for MutexGuard<'_, T> {
+    type Target = T;
+    fn deref(&self) -> &T {
+        &self.0
+    }
+}
+
+impl<T> DerefMut for MutexGuard<'_, T> {
+    fn deref_mut(&mut self) -> &mut T {
+        &mut self.0
+    }
+}
+
+impl<T> Drop for MutexGuard<'_, T> {
+    fn drop(&mut self) {
+        // SAFETY: dropped exactly once, here.
+        unsafe { ManuallyDrop::drop(&mut self.0) };
+        yield_point(2);
+    }
+}
